@@ -1,17 +1,37 @@
 #!/bin/bash
 # usage: try_seed.sh <patch.diff> <Cxx> [Cyy...]  — applies a seeded change to /repo, runs the checks, reverts.
+# If the patch no longer applies to /repo's HEAD (a fix: commit touched the same lines), the check is run
+# with --repo on a scratch worktree of the pinned commit, with and without the patch, and the
+# violations that appear only with the patch are printed.
 export GOFLAGS=-mod=mod GOPROXY=off GOSUMDB=off GOTOOLCHAIN=local
 patch=$1; shift
+scratch=${VERIF_SCRATCH:-/tmp/verif_scratch}
+mkdir -p $scratch; cp /verif/known_findings.json $scratch/
 cd /repo || exit 2
 if [ -n "$(git status --porcelain)" ]; then echo "/repo not clean"; exit 2; fi
-if ! git apply "$patch" 2>/dev/null; then
-  if ! git apply -3 "$patch" >/dev/null 2>&1; then echo "PATCH DOES NOT APPLY: $patch"; git checkout -- . ; exit 3; fi
-  git reset -q
+applied=0
+if git apply "$patch" 2>/dev/null; then applied=1
+elif git apply -3 "$patch" >/dev/null 2>&1 && [ -z "$(git diff --name-only --diff-filter=U)" ]; then git reset -q; applied=1
+else git checkout -q -- . 2>/dev/null; git reset -q --hard HEAD >/dev/null 2>&1; fi
+if [ $applied = 1 ]; then
+  for p in "$@"; do
+    out=$(/verif/bin/verifchk check $p --verif $scratch 2>&1); rc=$?
+    echo "== $p rc=$rc (on HEAD + seed)"
+    echo "$out" | grep -v "^KNOWN-FINDING" | head -${LINES_MAX:-8}
+  done
+  git checkout -- . ; git clean -fdq server >/dev/null 2>&1
+  exit 0
 fi
+echo "(patch does not apply to HEAD; evaluating on the pinned commit in a scratch worktree)"
+wt=/tmp/wt/eval_$$
+git worktree add -q --detach $wt 406bd03 || exit 3
 for p in "$@"; do
-  out=$(/verif/bin/verifchk check $p --verif ${VERIF_SCRATCH:-/tmp/verif_scratch} 2>&1)
-  rc=$?
-  echo "== $p rc=$rc"
-  echo "$out" | grep -v "^KNOWN-FINDING" | head -${LINES_MAX:-8}
+  /verif/bin/verifchk check $p --repo $wt --verif $scratch 2>&1 | grep "^VIOLATION rule" | sed 's/ at [^ ]*:/ :/' | sort > $scratch/base_$p.txt
 done
-git checkout -- . ; git clean -fdq server >/dev/null 2>&1
+(cd $wt && git apply "$patch") || { echo "PATCH DOES NOT APPLY to pinned commit"; git worktree remove --force $wt; exit 3; }
+for p in "$@"; do
+  /verif/bin/verifchk check $p --repo $wt --verif $scratch 2>&1 | grep "^VIOLATION rule" | sed 's/ at [^ ]*:/ :/' | sort > $scratch/seed_$p.txt
+  new=$(comm -13 $scratch/base_$p.txt $scratch/seed_$p.txt)
+  if [ -n "$new" ]; then echo "== $p rc=1 (pinned + seed; violations not present on the pinned tree:)"; echo "$new" | head -${LINES_MAX:-8}; else echo "== $p rc=0 (pinned + seed: no new violation)"; fi
+done
+git worktree remove --force $wt
